@@ -38,6 +38,12 @@ def seed():
 
 
 def rundir(name):
+    # replay files of an earlier run of the same check are stale
+    rd = os.path.join(OUT, "replay")
+    if os.path.isdir(rd) and not name.endswith("-replay"):
+        for f in os.listdir(rd):
+            if f.startswith(name + "-"):
+                os.remove(os.path.join(rd, f))
     d = os.path.join(OUT, name)
     shutil.rmtree(d, ignore_errors=True)
     os.makedirs(d, exist_ok=True)
@@ -50,11 +56,14 @@ def build_harness(race=False, into=None):
     os.makedirs(bindir, exist_ok=True)
     src_sum = os.path.join(REPO, "src", "go.sum")
     shutil.copyfile(src_sum, os.path.join(HARNESS, "go.sum"))
+    # the harness module repeats the repository's own requirements (same versions, nothing to resolve offline)
     gomod = os.path.join(HARNESS, "go.mod")
-    txt = open(gomod).read()
-    want = "replace github.com/bartossh/Computantis/src => %s/src" % REPO
-    txt2 = re.sub(r"replace github.com/bartossh/Computantis/src => \S+", want, txt)
-    if txt2 != txt:
+    src_mod = open(os.path.join(REPO, "src", "go.mod")).read()
+    reqs = "\n".join(re.findall(r"^require \([^)]*\)", src_mod, re.M | re.S))
+    gover = re.search(r"^go (\S+)", src_mod, re.M).group(1)
+    txt2 = ("module verif/harness\n\ngo %s\n\nrequire github.com/bartossh/Computantis/src v0.0.0\n\n%s\n\n"
+            "replace github.com/bartossh/Computantis/src => %s/src\n" % (gover, reqs, REPO))
+    if not os.path.exists(gomod) or open(gomod).read() != txt2:
         open(gomod, "w").write(txt2)
     name = "drive-race" if race else "drive"
     out = os.path.join(bindir, name)
